@@ -16,6 +16,7 @@ type Expr struct {
 	Lit  *V      // literal
 	I, J *int    // slice bounds / flatten depth
 	Opt  bool    // trailing ? on a path element
+	Post bool    // pipe printed as a postfix chain: L followed directly by the traversal step R (.a[0], (e).b)
 }
 
 const (
@@ -149,6 +150,17 @@ func (e *Expr) String() string {
 	case OpLit:
 		return litText(e.Lit)
 	case OpPipe:
+		if e.Post && isStep(e.R) && postfixable(e.L) && (e.L.Op != OpSelf || e.R.Op != OpKey) {
+			l := e.L.String()
+			r := e.R.String()
+			if e.L.Op == OpSelf {
+				return r
+			}
+			if e.R.Op != OpKey || !identRe.MatchString(e.R.S) {
+				r = r[1:] // .[0] -> [0]
+			}
+			return l + r
+		}
 		return "(" + e.L.String() + " | " + e.R.String() + ")"
 	case OpUnion:
 		return "(" + e.L.String() + ", " + e.R.String() + ")"
@@ -250,4 +262,31 @@ func (e *Expr) Ops() []string {
 		}
 	})
 	return out
+}
+
+func isStep(e *Expr) bool {
+	switch e.Op {
+	case OpKey, OpIndex, OpSplat, OpSlice:
+		return true
+	}
+	return false
+}
+
+// postfixable: expressions after which a traversal step may be written directly
+// (a path chain, or anything printed inside its own brackets).
+func postfixable(e *Expr) bool {
+	switch e.Op {
+	case OpSelf, OpKey, OpIndex, OpSplat, OpSlice:
+		return true
+	case OpPipe:
+		if e.Post {
+			return isStep(e.R) && postfixable(e.L)
+		}
+		return true // printed as ( … | … )
+	case OpUnion, OpBin, OpAs, OpReduce:
+		return true // printed in parentheses
+	case OpCollect:
+		return e.L != nil
+	}
+	return false
 }
